@@ -394,6 +394,13 @@ func Round3Generic(c *Ctx, id string) {
 		return
 	}
 	switch id {
+	case "C11":
+		ctxParamUsed(c, "ctx-param-used", pkgTransport)
+		errorListLenZeroOnly(c, "error-list-len-zero-only", false, pkgTransport, pkgExecutor, pkgGraphql)
+		valueHalfOnErrorEdge(c, "value-half-on-error-edge", pkgTransport)
+		nilFuncCalls(c, "nil-func-call", pkgTransport)
+	case "C16":
+		decidedConditions(c, "decided-conditions", modPath("graphql/introspection"))
 	case "C01":
 		wgAddBeforeGo(c, "wg-add-before-go", true, pkgGraphql)
 		constIndexInRange(c, "const-index-in-range", true, pkgGraphql)
@@ -404,6 +411,7 @@ func Round3Generic(c *Ctx, id string) {
 		c05WG(c)
 		c04HandlerShape(c)
 	case "C03":
+		independentTests(c)
 		configFieldsRead(c, "config-fields-read", pkgExecutor, pkgHandler, pkgTransport, pkgExtension)
 		rawParamsJSONNames(c)
 		variableValuesOfSelectedOperation(c)
@@ -411,10 +419,16 @@ func Round3Generic(c *Ctx, id string) {
 		genRound3(c, "field-hooks", "deferred-only")
 		swappedFieldArgs(c, "swapped-field-args", pkgGraphql)
 	case "C14":
+		independentTests(c)
+		staleLoopCarried(c, "stale-loop-carried", pkgComplex)
+		c03FailClosed(c)
 		configFieldsRead(c, "config-fields-read", pkgExecutor, pkgHandler, pkgExtension, pkgComplex)
 	case "C15":
+		independentTests(c)
+		dispatchCtxCarriesOperation(c)
 		rawParamsJSONNames(c)
 	case "C07":
+		dispatchCtxCarriesOperation(c)
 		mapRangeSorted(c, "map-range-sorted", modPath("graphql/introspection"), pkgExecutor, pkgGraphql)
 	case "C02":
 		ifaceConstCompare(c, "iface-const-compare", pkgGraphql)
@@ -423,19 +437,25 @@ func Round3Generic(c *Ctx, id string) {
 		genRound3(c, "input-null", "arg-absent", "args-ctx")
 		c07PoolReset(c) // variables of an earlier request must not reach this one's coercion
 	case "C04":
+		errorListLenZeroOnly(c, "error-list-len-zero-only", true, pkgTransport, pkgExecutor, pkgGraphql)
 		genRound3(c, "reported-error", "deferred-fields")
 		recoverResultGuarded(c, "recover-result-guarded", pkgTransport, pkgHandler, pkgExecutor)
 		c06ResponseLocks(c)
 		c02ArgErrors(c)
 		c01Invalids(c)
 	case "C13":
+		valueReceiverCopiesSync(c, "value-receiver-copies-sync", true, pkgTransport, pkgGraphql)
+		rootOnce(c)
 		genRound3(c, "deferred-fields")
 	case "C05":
+		valueReceiverCopiesSync(c, "value-receiver-copies-sync", true, pkgTransport, pkgGraphql)
+		ctxParamUsed(c, "ctx-param-used", pkgTransport)
 		wgAddBeforeGo(c, "wg-add-before-go", true, pkgGraphql, pkgTransport)
 		panicSafeLocks(c, "panic-safe-locks", pkgTransport)
 		genRound3(c, "stream-closed", "worker-limit")
 		stopDeferredAtOnce(c)
 	case "C06":
+		valueReceiverCopiesSync(c, "value-receiver-copies-sync", true, pkgTransport, pkgGraphql)
 		wgAddBeforeGo(c, "wg-add-before-go", true, pkgGraphql)
 		var feds []*GenPkg
 		for _, g := range c.Gen {
@@ -454,11 +474,14 @@ func Round3Generic(c *Ctx, id string) {
 		slotAndFunctionSameElement(c)
 		idMarshalersQuote(c)
 	case "C09":
+		decidedConditions(c, "decided-conditions", pkgTransport, pkgExecutor, pkgHandler)
+		dispatchCtxCarriesOperation(c)
 		trimCutsetLooksLikePrefix(c, "trim-cutset", pkgTransport, pkgExecutor, pkgHandler)
 		errcodeSetOnReturnedError(c)
 		formBodiesQueryUnescaped(c)
 		rawParamsJSONNames(c)
 	case "C10":
+		valueHalfOnErrorEdge(c, "value-half-on-error-edge", pkgTransport)
 		trimCutsetLooksLikePrefix(c, "trim-cutset", pkgTransport, pkgExecutor, pkgHandler, pkgGraphql)
 		nilCheckContradiction(c, "nil-check-contradiction", pkgTransport, pkgExecutor, pkgGraphql, pkgHandler)
 		c07PoolReset(c)
@@ -467,8 +490,10 @@ func Round3Generic(c *Ctx, id string) {
 		uploadFieldsFromPart(c)
 		seekBasePerWhence(c)
 	case "C12":
+		valueReceiverCopiesSync(c, "value-receiver-copies-sync", true, pkgTransport, pkgGraphql)
+		rootOnce(c)
+		genRound3(c, "stream-closed")
 		nilCheckContradiction(c, "nil-check-contradiction", pkgTransport)
-		panicSafeLocks(c, "panic-safe-locks", pkgTransport)
 	}
 }
 
